@@ -14,8 +14,15 @@ directly on the real outcome — TTL index creation and index drops (of TTL name
 with expiry passes are generated and judged like everything else; (iii) when the proof step is
 broken the explorer searches the model of the regenerated code for a bad schedule, which is
 replayed on the real code; (iv) direct probes on the real code: the lock is released however a
-section is left (`release_probe`), and the walks over the index dictionaries at the `Collection`
-level survive concurrent index creation / drops (`c19_index_probe`).
+section is left (`release_probe`), the walks over the index dictionaries at the `Collection`
+level survive concurrent index creation / drops (`c19_index_probe`), and every reader that ITERATES
+the documents (the `documents` generator consumed directly or through find / count_documents /
+distinct / aggregate / delete_many / update_many / the pre-check of create_index(unique), and the
+collection of expired keys of a TTL pass) is run against every kind of writer (insert, delete,
+upsert, TTL delete) at every preemption point (`c19_iter_probe`); (v) in (ii) and (iv) the store
+is traced (`sched.trace_store`) and two clauses are judged on the log of what the real code did:
+no other thread enters a write section while an iteration is under way, and what an iteration
+hands out is the content of the collection at one instant.
 """
 import collections
 import json
@@ -25,15 +32,19 @@ import random
 import common
 import c19_certs
 import c19_index_probe
+import c19_iter_probe
 import sched
 import wire
 
 RULE = ('case = one scenario (initial ids in _documents / indexes / _ttl_indexes, which ids are '
-        'expired, 2-4 threads each running 1-3 CollectionStore calls) plus one schedule (list of '
-        'thread numbers, control switching before lock operations and at documents handed out by '
+        'expired, 2-4 threads each running 1-3 CollectionStore calls; in one scenario out of five '
+        'a scan of a collection of three with a writing thread next to it) plus one schedule (list '
+        'of thread numbers — uniform, in short bursts, or one thread some way and then the '
+        'others —, control switching before lock operations and at documents handed out by '
         'the `documents` generator); run on the real code with real threads under sched.py and on '
         'the model; non-trivial = at least two threads were simultaneously between their first '
-        'and their last lock operation; distinct = hash of (scenario, schedule actually used)')
+        'and their last lock operation; distinct = hash of (scenario, schedule actually used); '
+        'plus the single-preemption schedules of the index and iteration probes (real code only)')
 
 ASSUMPTIONS = [
     'granularity: the model switches threads between any two primitive actions (lock operation, '
@@ -63,7 +74,19 @@ ASSUMPTIONS = [
     'the walks over `indexes` at the Collection level (unique check of a write, index listings) '
     'are not in the Lean model: they are judged on the real code only, over all single-preemption '
     'schedules of six (walker, index operation) pairs and a lazily consumed listing',
+    'the two clauses about a reader that iterates (no writer admitted meanwhile; what it hands out '
+    'is the collection at one instant) are judged on the real code only, from the log of the '
+    'traced store: in every random schedule, and over the single-preemption schedules of every '
+    '(iterating entry point, writer) pair of c19_iter_probe (quick: the preemption points inside '
+    'the reader\'s iterations and a subset of the pairs; thorough: every step, every pair); the '
+    'expiry collection is observed through the calls of `_value_meets_expiry` (an implementation '
+    'that does not call it once per document is not observed); in-place changes of a stored '
+    'document by update operators take no write section at all and are outside these clauses '
+    '(the property speaks of reads, inserts, deletes, TTL expiry and index creation)',
 ]
+
+# classes of deviation listed in known_findings.json (status known) are counted, not reported
+KNOWN_CLASSES = ('concurrent-delete-keyerror',)
 
 EXTRA_TARGETS = []
 REGEN = {}
@@ -99,7 +122,7 @@ def scenario_line(sc):
 
 def gen_scenario(rng, nthreads=None):
     n = nthreads or rng.choice([2, 2, 3, 3, 4])
-    docs0 = rng.choice([[0, 1], [0, 1], [1, 0], [0], [1], []])
+    docs0 = rng.choice([[0, 1], [0, 1], [1, 0], [0], [1], [], [0, 1, 2], [2, 0, 1]])
     expired = rng.choice([[], [0], [1], [0, 1], [0, 1, 2]])
     ttl0 = rng.choice([[], [], [0], [0], [0, 1], [1]])
     idx0 = list(ttl0) + rng.choice([[], [2]])
@@ -123,6 +146,16 @@ def gen_scenario(rng, nthreads=None):
                 key = rng.choice([0, 1, 2])  # 0, 1: TTL names (when present)
             prog.append((m, key, thr))
         progs.append(prog)
+    if rng.random() < 0.2:
+        # an iteration over a collection of three with writers around: the first call of one
+        # thread is a scan, the first call of another one a write
+        docs0 = rng.choice([[0, 1, 2], [2, 0, 1], [1, 2, 0]])
+        r = rng.randrange(n)
+        w = rng.choice([t for t in range(n) if t != r])
+        progs[r][0] = ('documents', 0, rng.choice([0, 0, 0, 3]))
+        progs[w][0] = rng.choice([('delItem', rng.choice([0, 1, 2]), 0),
+                                  ('setItem', rng.choice([0, 1, 2]), 0),
+                                  ('expireDocuments', 0, 0)])
     return {'docs0': docs0, 'idx0': idx0, 'ttl0': ttl0, 'expired': expired, 'progs': progs}
 
 
@@ -131,6 +164,15 @@ def gen_schedule(rng, n):
     length = rng.choice([0, 10, 30, 60, 120])
     if style < 0.5:
         return [rng.randrange(n) for _ in range(length)]
+    if style >= 0.8:
+        # one thread gets some way (often into the middle of an iteration), then the others run
+        # as far as they can, one after the other
+        first = rng.randrange(n)
+        out = [first] * rng.randrange(0, 50)
+        for t in rng.sample(range(n), n):
+            if t != first:
+                out += [t] * 60
+        return out
     out = []                                   # bursts: a few steps of one thread at a time
     while len(out) < length:
         out += [rng.randrange(n)] * rng.choice([1, 2, 3, 5, 8, 13])
@@ -141,6 +183,7 @@ def mutates_ttl(sc):
     return any(c[0] in ('createIndexTtl', 'dropIndex') for p in sc['progs'] for c in p)
 
 
+WRITERS = ('setItem', 'delItem', 'expireDocuments', 'removeExpired')
 WALKERS = ('contains', 'getItem', 'len', 'documents', 'isEmpty', 'removeExpired', 'dropIndex')
 
 
@@ -195,6 +238,10 @@ def defects(sc, o):
         if name == 'KeyError' and m in BENIGN_KEYERROR:
             continue
         out.append(('internal-error', '%s in thread %d call %d (%s)' % (name, t, ci, m)))
+    # a reader that iterates (`documents`, the expiry collection): judged on the log of the run
+    for v in o.get('iter', ()):
+        out.append(('writer-admitted-during-iteration' if v['clause'] == 'a'
+                    else 'iteration-not-a-snapshot', v['what']))
     return out
 
 
@@ -378,9 +425,38 @@ def run(ctx, proof, driver_ok):
         ctx.violation({'kind': 'property fails on the real code: a reader of the index listing '
                                'does not see it as at one instant', 'what': what,
                        'python': snip}, rank=2)
+    # every iterating reader against every kind of writer, all single-preemption schedules
+    known = {e['id'] for e in common.load_known('C19') if e.get('status') == 'known'}
+    icov, ibad, iknown = c19_iter_probe.sweep(ctx.tier, known & set(KNOWN_CLASSES))
+    cov['iteration_probe'] = icov
+    cov['evaluations'] += icov['schedules_run']
+    for cls, cnt in iknown.items():
+        ctx.known_seen[cls] = ctx.known_seen.get(cls, 0) + cnt
+    for i, rep in enumerate(ibad):
+        clauses = {p['clause'] for p in rep['problems']}
+        rep['kind'] = ('property fails on the real code: ' + (
+            'a writer is admitted while a reader is iterating the collection / the reader does '
+            'not see the collection as it was at one instant' if clauses & {'a', 'b'} else
+            'a reader that iterates and a concurrent writer do not both run to completion '
+            'without error'))
+        ctx.violation(rep, rank=3 + i)
     cases = []
     # the witnesses of the findings repaired in the library go through the same correspondence
     fixed = [e for e in common.load_known('C19') if e.get('status') == 'fixed']
+    # ... those witnessed by a pair of collection-level operations are re-run as such: a finding
+    # repaired in the library that comes back is a violation
+    for e in [e for e in fixed if 'iter_probe_witness' in e['witness']]:
+        k, res = c19_iter_probe.delete_delete_witness(any_problem=True)
+        cov.setdefault('fixed_finding_pair_witnesses_replayed', []).append(e['id'])
+        if k is not None:
+            rep = c19_iter_probe.describe('plain', c19_iter_probe.DELETE_ONE_2,
+                                          c19_iter_probe.DELETE_ONE_2, k, res)
+            rep['kind'] = ('property fails on the real code: a finding repaired in the library '
+                           'is back (%s)' % e['what'])
+            rep['witness_of_fixed_finding'] = e['id']
+            rep['iter_probe']['witness'] = 'delete_delete'
+            ctx.violation(rep, rank=2)
+    fixed = [e for e in fixed if 'iter_probe_witness' not in e['witness']]
     for e in fixed:
         cases.append(load_case(e['witness']))
     nfixed = len(cases)
@@ -402,6 +478,7 @@ def run(ctx, proof, driver_ok):
     ttlz = collections.Counter()
     seen, nontrivial = set(), set()
     stale, nonconf = 0, 0
+    iterz = collections.Counter()
     samples = []
     for ci, ((sc, schedule), real, model) in enumerate(zip(cases, reals, models)):
         cov['evaluations'] += 1
@@ -422,6 +499,10 @@ def run(ctx, proof, driver_ok):
         if real['overlap']:
             nontrivial.add(h)
         ds = defects(sc, real)
+        iterz['iterations judged (documents generator, expiry collection)'] += real.get(
+            'iterations', 0)
+        if real.get('iterations') and any(c[0] in WRITERS for p in sc['progs'] for c in p):
+            iterz['schedules with an iteration and a writing thread'] += 1
         agree = model is None or comparable(real) == comparable(model)
         c = conf.get(scenario_line(sc))
         if c is not None and c[:2] != ['1', '1']:
@@ -430,6 +511,12 @@ def run(ctx, proof, driver_ok):
                'real_outcome': comparable(real), 'real_defects': ds,
                'model_outcome': comparable(model) if model else None,
                'python': snippet(sc, schedule)}
+        if ds:
+            rep['threads'] = {'thread %d' % t: ['%s(key=%d%s)' % (m, k, ', consumer throws at '
+                                                                  'document %d' % thr if thr else '')
+                                               for m, k, thr in p]
+                              for t, p in enumerate(sc['progs'])}
+            rep['what_happened'] = real.get('story')
         if ci < nfixed:
             rep['witness_of_fixed_finding'] = fixed[ci]['id']
         if agree and not ds:
@@ -456,6 +543,7 @@ def run(ctx, proof, driver_ok):
                                'scenarios' % nonconf}, no_input=True)
     cov.update({'distinct': len(seen), 'distinct_nontrivial': len(nontrivial),
                 'zones': dict(zones), 'ttl_index_programs': dict(ttlz),
+                'iterating_readers_in_random_schedules': dict(iterz),
                 'fixed_finding_witnesses_replayed': nfixed,
                 'threads': dict(threads), 'status': dict(status),
                 'methods': dict(hist), 'exceptions': dict(excs), 'model_stale': stale,
@@ -473,16 +561,38 @@ def load_case(obj):
 
 def replay(ctx, path):
     obj = json.load(open(path))
+    if 'iter_probe' in obj:
+        ip = obj['iter_probe']
+        if ip.get('witness') == 'delete_delete':
+            res = c19_iter_probe.delete_delete_witness(ip['k'])[1] or c19_iter_probe.run_pair(
+                'plain', c19_iter_probe.DELETE_ONE_2, c19_iter_probe.DELETE_ONE_2, ip['k'], True)
+        else:
+            res = c19_iter_probe.rerun(ip['setup'], ip['reader'], ip['writer'], ip['k'])
+        print('setup   :', obj.get('setup'))
+        print('thread 0:', obj.get('reader (thread 0)'))
+        print('thread 1:', obj.get('writer (thread 1)'))
+        print('schedule:', obj.get('schedule'))
+        print('\n'.join(res['story']))
+        print('observed:', res['status'], res['exceptions'], 'final _ids', res['final_ids'])
+        known = {e['id'] for e in common.load_known('C19') if e.get('status') == 'known'}
+        bad = [p for p in res['problems'] if p.get('class') not in known]
+        for p in res['problems']:
+            print('%s: [%s] %s' % ('known finding' if p not in bad else 'VIOLATED',
+                                   p['clause'], p['what']))
+        print('FAILS' if bad else 'passes')
+        return 1 if bad else 0
     if 'scenario' not in obj:
         print('replay file names no input: %s' % obj.get('kind'))
         print(json.dumps({k: obj[k] for k in obj if k != 'log_tail'}, indent=1)[:3000])
         return 1
     sc, schedule = load_case(obj)
-    real = run_real(sc, schedule)
+    real = sched.replay(sc, schedule, with_story=True)
     ds = defects(sc, real)
     print('scenario:', scenario_line(sc))
     print('schedule:', schedule)
     print('real    :', json.dumps(comparable(real)), 'blocked=%r' % (real.get('blocked'),))
+    if real.get('story'):
+        print('\n'.join(real['story']))
     print('defects :', ds)
     fail = bool(ds)
     if os.path.exists(wire.DRIVER):
@@ -497,6 +607,11 @@ def replay(ctx, path):
 
 def replay_finding(ctx, entry):
     w = entry['witness']
+    if 'iter_probe_witness' in w:
+        k, res = c19_iter_probe.delete_delete_witness(w.get('k'))
+        if k is None:
+            k, res = c19_iter_probe.delete_delete_witness()
+        return k is not None
     sc, schedule = load_case(w)
     real = run_real(sc, schedule)
     ds = defects(sc, real)
